@@ -7,3 +7,4 @@ pub mod util;
 pub mod c13;
 pub mod c11;
 pub mod c15;
+pub mod c17s;
